@@ -7,6 +7,7 @@ import Rtp.Proofs.AV1DepackRT
 import Rtp.Proofs.AV1FramesRT
 namespace Rtp.Model.AV1
 open Rtp Rtp.Model Rtp.Spec.Av1Rtp
+open Rtp.Model.ObuLemmas
 
 theorem payloadPks_nil (mtu : Nat) : payloadPks mtu [] = [] := by
   simp [payloadPks, walk, finish]
